@@ -20,7 +20,7 @@ RULE = ('hierarchies of 1-3 nested branches with 1-5 variables each; every varia
         'Store.apply_update or through an Engine run of a process returning the batch; non-trivial = >=2 '
         'variables updated and (a _multi_update, an override, a quantity or an array present); distinct = '
         'distinct case spec')
-PLAN = {'quick': {'n': 12000, 'min_cases': 1500}, 'thorough': {'n': 300000, 'min_cases': 30000}}
+PLAN = {'quick': {'n': 30000, 'min_cases': 1500}, 'thorough': {'n': 300000, 'min_cases': 30000}}
 REQUIRED_ORACLES = ['store_value', 'frame', 'update_not_mutated', 'units_normalised',
                     'contract.accumulate', 'contract.set', 'contract.merge', 'contract.nonnegative_accumulate',
                     'contract.null', 'contract.dict_value', 'engine_value']
